@@ -63,12 +63,10 @@ Qed.
 Lemma put_uvarint_len : forall x, (1 <= length (put_uvarint x) <= 10)%nat.
 Proof. intros x. unfold put_uvarint. pose proof (put_uvarint_fuel_len 9 x). lia. Qed.
 
-Lemma skip_z_put : forall x (rest : list N),
-  skip_z (Z.of_nat (length (put_uvarint x))) (put_uvarint x ++ rest) = Ok rest.
+Lemma skipn_put : forall x (rest : list N),
+  skipn (Z.to_nat (Z.of_nat (length (put_uvarint x)))) (put_uvarint x ++ rest) = rest.
 Proof.
-  intros x rest. unfold skip_z.
-  replace (Z.of_nat (length (put_uvarint x)) <? 0)%Z with false by lia.
-  rewrite Nat2Z.id. rewrite skipn_app, skipn_all, Nat.sub_diag. reflexivity.
+  intros x rest. rewrite Nat2Z.id. rewrite skipn_app, skipn_all, Nat.sub_diag. reflexivity.
 Qed.
 
 (* ------------------------------------------------------------------ delta lists *)
@@ -100,8 +98,8 @@ Proof.
     destruct (put_uvarint d ++ deltas_enc W p r) eqn:E.
     { destruct (put_uvarint d) eqn:E2; [simpl in Hlen; lia|discriminate]. }
     rewrite <- E. rewrite uvarint_put by exact Hd.
-    replace (Z.of_nat (length (put_uvarint d)) =? 0)%Z with false by lia.
-    rewrite skip_z_put. cbn [obind].
+    replace (Z.of_nat (length (put_uvarint d)) <=? 0)%Z with false by lia.
+    rewrite skipn_put.
     unfold d. rewrite wrap_delta by lia.
     rewrite IH; auto; lia.
 Qed.
@@ -122,10 +120,13 @@ Proof.
   unfold from_sized_deltas_w, to_sized_deltas_w.
   assert (Hn : nlen l <= MAXALLOC) by nia.
   assert (Hn64 : nlen l < W64) by (unfold MAXALLOC, W64 in *; lia).
-  rewrite uvarint_put by exact Hn64. rewrite skip_z_put.
-  unfold make_request. replace (nlen l <? 9223372036854775808) with true by (unfold MAXALLOC in *; lia).
+  rewrite uvarint_put by exact Hn64. pose proof (put_uvarint_len (nlen l)) as Hpl.
+  replace (Z.of_nat (length (put_uvarint (nlen l))) <=? 0)%Z with false by lia. rewrite skipn_put.
+  pose proof (deltas_enc_len W l 0) as Hel.
+  assert (Hmin : N.min (nlen l) (nlen (deltas_enc W 0 l)) = nlen l) by (unfold nlen in *; lia).
+  rewrite Hmin.
   replace (MAXALLOC <? nlen l * elem) with false by lia.
-  cbn [fst]. apply deltas_roundtrip; auto. apply deltas_enc_len.
+  cbn [fst]. apply deltas_roundtrip; auto.
 Qed.
 
 Lemma W32_pos : 0 < W32. Proof. reflexivity. Qed.
@@ -158,9 +159,10 @@ Proof.
     pose proof (put_uvarint_len d1) as Hlen1. pose proof (put_uvarint_len d2) as Hlen2.
     destruct (put_uvarint d1 ++ put_uvarint d2 ++ deltas_enc W32 e (flatten_secs r)) eqn:E.
     { destruct (put_uvarint d1) eqn:E2; [simpl in Hlen1; lia|discriminate]. }
-    rewrite <- E. rewrite uvarint_put by exact Hd1. rewrite skip_z_put. cbn [obind].
-    rewrite uvarint_put by exact Hd2. rewrite skip_z_put. cbn [obind].
-    replace (Z.of_nat (length (put_uvarint d1)) =? 0)%Z with false by lia. cbn [andb].
+    rewrite <- E. rewrite uvarint_put by exact Hd1.
+    replace (Z.of_nat (length (put_uvarint d1)) <=? 0)%Z with false by lia. rewrite skipn_put.
+    rewrite uvarint_put by exact Hd2.
+    replace (Z.of_nat (length (put_uvarint d2)) <=? 0)%Z with false by lia. rewrite skipn_put.
     unfold d1, d2. rewrite !wrap_delta by (auto using W32_pos).
     rewrite IH; auto; lia.
 Qed.
@@ -174,12 +176,15 @@ Proof.
   intros l Hall Hsz. unfold unmarshal_doc_sections, unmarshal_doc_sections_a, marshal_doc_sections, to_sized_deltas, to_sized_deltas_w.
   assert (Hn : nlen (flatten_secs l) = 2 * nlen l) by (unfold nlen; rewrite flatten_secs_len; lia).
   assert (Hn64 : nlen (flatten_secs l) < W64) by (unfold MAXALLOC, W64 in *; lia).
-  rewrite uvarint_put by exact Hn64. rewrite skip_z_put.
-  unfold make_request. replace (nlen (flatten_secs l) <? 9223372036854775808) with true by (unfold MAXALLOC in *; lia).
+  rewrite uvarint_put by exact Hn64. pose proof (put_uvarint_len (nlen (flatten_secs l))) as Hpl.
+  replace (Z.of_nat (length (put_uvarint (nlen (flatten_secs l)))) <=? 0)%Z with false by lia. rewrite skipn_put.
+  pose proof (deltas_enc_len W32 (flatten_secs l) 0) as Hel.
+  assert (Hmin : N.min (nlen (flatten_secs l)) (nlen (deltas_enc W32 0 (flatten_secs l))) = nlen (flatten_secs l)) by (unfold nlen in *; lia).
+  rewrite Hmin.
   rewrite Hn. replace (2 * nlen l / 2) with (nlen l) by (rewrite N.mul_comm, N.div_mul; [reflexivity|discriminate]).
   replace (MAXALLOC <? nlen l * 8) with false by lia. cbn [fst].
   apply docsecs_roundtrip_loop; auto; [reflexivity|].
-  pose proof (deltas_enc_len W32 (flatten_secs l) 0) as H. rewrite flatten_secs_len in H. lia.
+  rewrite flatten_secs_len in Hel. lia.
 Qed.
 
 (* ------------------------------------------------------------------ big-endian words *)
